@@ -121,7 +121,13 @@ public:
         void push(Iter &&from, Iter &&to) {
             std::unique_lock<std::mutex> lk(_mx);
             auto n = _q.size();
-            std::copy(from, to, std::front_inserter(_q));
+            try {
+                std::copy(from, to, std::front_inserter(_q));
+            } catch (...) {
+                //nothing has been published yet, remove items inserted so far
+                _q.erase(_q.begin(), _q.begin()+(_q.size() - n));
+                throw;
+            }
             auto d = _q.size() - n;
             if (d) {
                 push_lk(lk,d);
